@@ -11,9 +11,11 @@ from .explore import Chooser
 
 
 def lib_exceptions():
+    """Every exception class the library itself defines (pyrtcm.exceptions)."""
     from pyrtcm import exceptions as E  # pylint: disable=import-outside-toplevel
 
-    return (E.RTCMParseError, E.RTCMMessageError, E.RTCMTypeError, E.RTCMStreamError)
+    return tuple(v for v in vars(E).values()
+                 if isinstance(v, type) and issubclass(v, Exception) and v.__module__ == E.__name__)
 
 
 def execute(source: bytes, choices=(), validate=1, quitonerror=1, parsed=True, labelmsm=1,
